@@ -345,6 +345,46 @@ GEN(int) @Div(its []ITER(int), d int) {
 	RETURN
 }`, Drives: []Drive{gen("int", "@Pick", "nil, 3"), gen("int", "@Pick", "nil, -1"), gen("int", "@Deref", "nil"), gen("int", "@Div", "nil, 0")}},
 
+	{Name: "YieldLocalsNamedLikePredeclared", Props: []string{"C03", "C07", "C02"}, Src: `
+// locals that shadow predeclared identifiers (cap, max, len, new, true, nil is not shadowable as a variable of
+// another type here) are ordinary variables: a yield of one reads it when the yield is reached
+GEN(int) @Caps() {
+	cap := 1
+	for cap < 10 {
+		YIELD(cap)
+		cap *= 2
+	}
+	RETURN
+}
+GEN(int) @RunningMax(xs []int) {
+	max := 0
+	for _, x := range xs {
+		if x > max {
+			max = x
+			YIELD(-1)
+		}
+		YIELD(max)
+	}
+	RETURN
+}
+GEN(int) @Len() {
+	len := 0
+	grow := func() { len += 10 }
+	for i := 0; i < 3; i++ {
+		YIELD(len)
+		grow()
+	}
+	RETURN
+}
+GEN(bool) @Flags(n int) {
+	true := false
+	for i := 0; i < n; i++ {
+		YIELD(true)
+		true = !true
+	}
+	RETURN
+}`, Drives: []Drive{gen("int", "@Caps", ""), gen("int", "@RunningMax", "[]int{3, 1, 5, 4}"), gen("int", "@Len", ""), gen("bool", "@Flags", "3")}},
+
 	{Name: "RangeBodyRedeclares", Props: []string{"C04", "C03"}, Src: `
 // the body of a range statement is its own block: it may redeclare the range variables, and closures made
 // before the redeclaration keep seeing the range variables
@@ -612,6 +652,52 @@ GEN(int) @Plain(n int) {
 	}
 	RETURN
 }`, Drives: []Drive{gen("int", "@IfElse", "3"), gen("int", "@SwitchDefault", "3"), gen("int", "@IfOnly", "3"), gen("int", "@Plain", "2")}},
+
+	{Name: "YieldFromInElseIfChains", Props: []string{"C05", "C01"}, Src: `
+// a delegation in ONE branch of an if / else-if / else chain, the other branches yield-free - every position
+GEN(int) @From(a, b int) {
+	for i := a; i < b; i++ { vm.E("step", i); YIELD(i) }
+	RETURN
+}
+GEN(int) @First(k int) {
+	skipped := 0
+	YIELD(-1)
+	if k == 0 {
+		YIELDFROM(GENCALL(int, @From, 10, 13))
+	} else if k == 1 {
+		skipped++
+	} else {
+		skipped += 2
+	}
+	YIELD(-2 - skipped)
+	RETURN
+}
+GEN(int) @Middle(k int) {
+	skipped := 0
+	if k == 0 {
+		skipped++
+	} else if k == 1 {
+		YIELDFROM(GENCALL(int, @From, 20, 22))
+	} else if k == 2 {
+		skipped += 2
+	}
+	YIELD(-2 - skipped)
+	RETURN
+}
+GEN(int) @Last(k int) {
+	skipped := 0
+	if k == 0 {
+		skipped++
+	} else if k == 1 {
+		skipped += 2
+	} else {
+		YIELD(5)
+		YIELDFROM(GENCALL(int, @From, 30, 32))
+	}
+	YIELD(-2 - skipped)
+	RETURN
+}`, Drives: []Drive{gen("int", "@First", "0"), gen("int", "@First", "1"), gen("int", "@First", "2"), gen("int", "@Middle", "1"), gen("int", "@Middle", "2"),
+		gen("int", "@Last", "0"), gen("int", "@Last", "2")}},
 
 	{Name: "YieldFromExhausted", Props: []string{"C05", "C09", "C06"}, Src: `
 // an exhausted delegate has no remaining elements: delegating to it again delivers nothing and runs
@@ -1272,6 +1358,18 @@ GEN(int) @G() {
 	for _, v := range a { YIELD(v) }
 	RETURN
 }`, Drives: []Drive{gen("int", "@G", "")}},
+
+	{Name: "RangeNilPointerToArray", Props: []string{"C12", "C04"}, MayReject: true, Src: `
+// range over a pointer to an array with at most one variable never evaluates *p: it runs len times for nil
+GEN(int) @G(p *[3]int) {
+	for i := range p {
+		YIELD(i)
+	}
+	n := 0
+	for range p { n++ }
+	YIELD(100 + n)
+	RETURN
+}`, Drives: []Drive{gen("int", "@G", "nil"), gen("int", "@G", "&[3]int{7, 8, 9}")}},
 
 	{Name: "GotoInsideClosure", Props: []string{"C12", "C11", "C13"}, Src: `
 GEN(int) @G(n int) {
